@@ -49,15 +49,24 @@ _ODD_RESULTS = st.sampled_from([{"edits": None}, {"edits": "n/a"}, {"edits": 1, 
 
 
 @st.composite
+def _many_deltas(draw):
+    """Long approved lists (beyond any plausible per-call chunk size): one batch means ONE call however long the list is."""
+    n = draw(st.sampled_from([64, 65, 100, 129, 150, 257, 300]))
+    vals = [0.1, -0.2, 0.3, 1e-9]
+    return [{"k": "node" if i % 3 else "edge", "id": f"n:{i:03d}", "v": vals[i % 4]} for i in range(n)]
+
+
+@st.composite
 def apply_cases(draw):
-    deltas = draw(_DELTAS)
+    deltas = draw(st.one_of(_DELTAS, _DELTAS, _DELTAS, _DELTAS, _many_deltas()))
     store_kind = draw(st.sampled_from(["ok", "ok", "ok", "ok", "no_fn", "none"]))
     batch = draw(st.one_of(st.fixed_dictionaries({"ret": _RESULTS}), st.fixed_dictionaries({"ret": _RESULTS}),
                            st.fixed_dictionaries({"ret": _ODD_RESULTS}),
                            st.fixed_dictionaries({"raise": st.sampled_from(sorted(EXC))}),
                            st.fixed_dictionaries({"raise": st.sampled_from(sorted(EXC))})))
     singles = [draw(st.one_of(st.fixed_dictionaries({"ret": _RESULTS}),
-                              st.fixed_dictionaries({"raise": st.sampled_from(sorted(EXC))}))) for _ in deltas]
+                              st.fixed_dictionaries({"raise": st.sampled_from(sorted(EXC))}))) for _ in deltas[:8]]
+    singles = [singles[i % len(singles)] for i in range(len(deltas))] if singles else []
     version = draw(st.sampled_from([None, "0", "5", "41", "abc", 7, ""]))
     turn = draw(st.one_of(st.integers(0, 12), st.integers(0, 12).map(str), st.sampled_from(["demo-1", "", None, 3.9])))
     every = draw(st.sampled_from([1, 1, 2, 3, 5]))
@@ -207,9 +216,11 @@ def check_apply(case, rec=None):
             nt = (case["store"] == "ok" and "raise" in case["batch"] and len(deltas) >= 2) or \
                  (case["bust"] == "on-apply" and case["cm"] == "real" and bool(case["preload"]) and case["store"] == "ok")
             labels = [f"store={case['store']}", "batch=" + ("raise" if "raise" in case["batch"] else "ret"), f"bust={case['bust']}",
+                      "deltas>=64" if len(deltas) >= 64 else "deltas<64",
                       f"cm={case['cm']}"] + (["snapshot"] if should else [])
             rec.case(nontrivial=nt, dig=digest(case) if nt else None, labels=labels,
-                     sample={k: case[k] for k in ("deltas", "batch", "singles", "version", "turn", "every", "bust")} if nt else None)
+                     sample={k: (case[k][:4] if k in ("deltas", "singles") else case[k])
+                             for k in ("deltas", "batch", "singles", "version", "turn", "every", "bust")} if nt else None)
 
 
 def sub_apply(rec, seed, shard, nshards, n=400, shrink=True):
